@@ -126,8 +126,8 @@ theorem C09_no_silent_null {F} (ops : FloatOps F) (cfg : LexCfg) :
     (c) the input is nothing but blanks. -/
 theorem never_silent_integer_of_cfg {F} (ops : FloatOps F) (cfg : LexCfg) (hcfg : cfg.intReportsFail = true) (hcfg2 : cfg.dollarKeepsError = true)
     (lookup : Int → RefLookup) (nullable : Bool)
-    (input : List Byte) (r : ReadResult F)
-    (h : attrRead ops cfg lookup .integer nullable (IStream.ofBytes input) = .ok r) (hne : NoErr r.sev) :
+    (input : List Byte) (l0 : List Byte) (r : ReadResult F)
+    (h : attrRead ops cfg lookup .integer nullable ({ left := l0, right := input } : IStream) = .ok r) (hne : NoErr r.sev) :
     (∃ sp1 tok sp2, input = sp1 ++ tok ++ sp2 ++ r.s.right ∧ sp1.all isSpace = true ∧ Between cfg sp2 ∧
         isInteger tok = true ∧ longMin ≤ denoteInteger tok ∧ denoteInteger tok ≤ longMax ∧
         r.val = intValue (some (denoteInteger tok)) ∧ intSentinel cfg (some (denoteInteger tok)) = false ∧
@@ -136,7 +136,7 @@ theorem never_silent_integer_of_cfg {F} (ops : FloatOps F) (cfg : LexCfg) (hcfg 
         ((c = 36 ∧ ∃ sp2, t = sp2 ++ r.s.right ∧ Between cfg sp2 ∧ AtDelimOrEnd cfg r.s.right) ∨
          ((c = 44 ∨ c = 41) ∧ r.s.right = c :: t))) ∨
     (input.all isSpace = true ∧ r.val = .unset) := by
-  obtain ⟨sp1, body, h1, h2, h3, h4⟩ := dropSpaces_split [] input
+  obtain ⟨sp1, body, h1, h2, h3, h4⟩ := dropSpaces_split l0 input
   rcases h4 with rfl | ⟨c, t, rfl, hc⟩
   · -- nothing but blanks
     right; right
@@ -147,14 +147,14 @@ theorem never_silent_integer_of_cfg {F} (ops : FloatOps F) (cfg : LexCfg) (hcfg 
     try replace hne := (noErr_sentinelIf _ _ hne).2
     exact ⟨h2, rfl⟩
   · subst h1
-    have hpre : (IStream.ofBytes (sp1 ++ c :: t)).ws = { left := sp1.reverse, right := c :: t } := by
-      simpa [IStream.ofBytes] using ws_good [] sp1 c t true h2 hc
+    have hpre : ({ left := l0, right := sp1 ++ c :: t } : IStream).ws = { left := (sp1.reverse ++ l0), right := c :: t } := by
+      simpa [IStream.ofBytes] using ws_good l0 sp1 c t true h2 hc
     by_cases h36 : c = 36
     · -- `$`
       subst h36
       simp only [attrRead, hpre, peekC_good, ignore1_good] at h
       simp at h
-      have hch := cri_char cfg { left := 36 :: sp1.reverse, right := t } Sev.null rfl
+      have hch := cri_char cfg { left := 36 :: (sp1.reverse ++ l0), right := t } Sev.null rfl
       subst h
       try replace hne := (noErr_sentinelIf _ _ hne).2
       cases nullable with
@@ -183,8 +183,8 @@ theorem never_silent_integer_of_cfg {F} (ops : FloatOps F) (cfg : LexCfg) (hcfg 
         have hcond : (c == 36 || c == 44 || c == 41) = false := by
           simp at hdl ⊢; exact ⟨⟨h36, hdl.1⟩, hdl.2⟩
         simp only [attrRead, hpre, peekC_good, hcond, readInteger, ws_good0 _ _ _ _ hc, extractLong_good _ _ _ hc] at h
-        obtain ⟨tok, rest, hr, hrest, hs2, hval, _⟩ := scanInt_split longMin longMax (by decide) (by decide) sp1.reverse (c :: t)
-        generalize hsc : scanInt longMin longMax sp1.reverse (c :: t) = sc at h hs2 hval
+        obtain ⟨tok, rest, hr, hrest, hs2, hval, _⟩ := scanInt_split longMin longMax (by decide) (by decide) (sp1.reverse ++ l0) (c :: t)
+        generalize hsc : scanInt longMin longMax (sp1.reverse ++ l0) (c :: t) = sc at h hs2 hval
         obtain ⟨res, l', r'⟩ := sc
         simp only [Prod.mk.injEq] at hs2
         obtain ⟨rfl, rfl⟩ := hs2
@@ -198,7 +198,7 @@ theorem never_silent_integer_of_cfg {F} (ops : FloatOps F) (cfg : LexCfg) (hcfg 
         | true =>
           exfalso
           simp only [hf, Bool.and_self, if_true] at hne
-          have hch := (cri_char cfg { left := tok.reverse ++ sp1.reverse, right := r', eof := r'.isEmpty, fail := true }
+          have hch := (cri_char cfg { left := tok.reverse ++ (sp1.reverse ++ l0), right := r', eof := r'.isEmpty, fail := true }
             (Sev.null.greater Sev.warning) rfl).1
           rcases hch with he | he
           · rw [he] at hne; exact greater_warning_err _ hne
@@ -206,10 +206,10 @@ theorem never_silent_integer_of_cfg {F} (ops : FloatOps F) (cfg : LexCfg) (hcfg 
         | false =>
           simp only [hf, Bool.false_and, Bool.false_eq_true, if_false, Bool.not_false, if_true] at hne ⊢
           obtain ⟨htok, hv, hlo, hhi⟩ := hval hf
-          have hch := (cri_char cfg { left := tok.reverse ++ sp1.reverse, right := r', eof := r'.isEmpty, fail := false }
+          have hch := (cri_char cfg { left := tok.reverse ++ (sp1.reverse ++ l0), right := r', eof := r'.isEmpty, fail := false }
             Sev.null rfl).2 hne
           generalize checkRemainingInput cfg (some attrDelims)
-            { left := tok.reverse ++ sp1.reverse, right := r', eof := r'.isEmpty, fail := false } Sev.null = X at hne hch ⊢
+            { left := tok.reverse ++ (sp1.reverse ++ l0), right := r', eof := r'.isEmpty, fail := false } Sev.null = X at hne hch ⊢
           left
           rcases hch with ⟨heof, hsame⟩ | ⟨heof, sp2, hs2, hrr, _, hat⟩
           · simp only at heof
@@ -234,7 +234,22 @@ theorem C09_never_silent_integer {F} (ops : FloatOps F) (lookup : Int → RefLoo
         ((c = 36 ∧ ∃ sp2, t = sp2 ++ r.s.right ∧ Between Generated.lexCfg sp2 ∧ AtDelimOrEnd Generated.lexCfg r.s.right) ∨
          ((c = 44 ∨ c = 41) ∧ r.s.right = c :: t))) ∨
     (input.all isSpace = true ∧ r.val = .unset) :=
-  never_silent_integer_of_cfg ops Generated.lexCfg (by decide) (by decide) lookup nullable input r h hne
+  never_silent_integer_of_cfg ops Generated.lexCfg (by decide) (by decide) lookup nullable input [] r h hne
+
+/-- `C09_never_silent_integer` for `STEPattribute::STEPread` called *anywhere in a stream*: the statement does not depend on what was
+    consumed before (`l0`) -/
+theorem C09_never_silent_integer_midstream {F} (ops : FloatOps F) (lookup : Int → RefLookup) (nullable : Bool)
+    (input : List Byte) (l0 : List Byte) (r : ReadResult F)
+    (h : attrRead ops Generated.lexCfg lookup .integer nullable ({ left := l0, right := input } : IStream) = .ok r) (hne : NoErr r.sev) :
+    (∃ sp1 tok sp2, input = sp1 ++ tok ++ sp2 ++ r.s.right ∧ sp1.all isSpace = true ∧ Between Generated.lexCfg sp2 ∧
+        isInteger tok = true ∧ longMin ≤ denoteInteger tok ∧ denoteInteger tok ≤ longMax ∧
+        r.val = intValue (some (denoteInteger tok)) ∧ intSentinel Generated.lexCfg (some (denoteInteger tok)) = false ∧
+        AtDelimOrEnd Generated.lexCfg r.s.right) ∨
+    (nullable = true ∧ r.val = .unset ∧ ∃ sp1 c t, input = sp1 ++ c :: t ∧ sp1.all isSpace = true ∧
+        ((c = 36 ∧ ∃ sp2, t = sp2 ++ r.s.right ∧ Between Generated.lexCfg sp2 ∧ AtDelimOrEnd Generated.lexCfg r.s.right) ∨
+         ((c = 44 ∨ c = 41) ∧ r.s.right = c :: t))) ∨
+    (input.all isSpace = true ∧ r.val = .unset) :=
+  never_silent_integer_of_cfg ops Generated.lexCfg (by decide) (by decide) lookup nullable input l0 r h hne
 
 /-- INTEGER, the delimiter is never consumed: for *any* input bytes and any scanner configuration, what the reader takes
     from the stream is a delimiter-free stretch (blanks, `$` or the token), then separators (`Between`: blanks, and comments
@@ -327,8 +342,8 @@ theorem C09_write_read_integer {F} (ops : FloatOps F) (cfg : LexCfg) (lookup : I
     (c) the attribute is OPTIONAL and the input is nothing but blanks. -/
 theorem never_silent_enum_of_cfg {F} (ops : FloatOps F) (cfg : LexCfg) (hcfg : cfg.logicalRejectsUnset = true)
     (hcfg2 : cfg.dollarKeepsError = true) (lookup : Int → RefLookup) (k : Kind) (hk : EnumLike k) (nullable : Bool)
-    (input : List Byte) (r : ReadResult F)
-    (h : attrRead ops cfg lookup k nullable (IStream.ofBytes input) = .ok r) (hne : NoErr r.sev) :
+    (input : List Byte) (l0 : List Byte) (r : ReadResult F)
+    (h : attrRead ops cfg lookup k nullable ({ left := l0, right := input } : IStream) = .ok r) (hne : NoErr r.sev) :
     (∃ sp1 name sp2 i, input = sp1 ++ 46 :: (name ++ 46 :: (sp2 ++ r.s.right)) ∧ sp1.all isSpace = true ∧ Between cfg sp2 ∧
         name ≠ [] ∧ name.all pw = true ∧ findName k.enumKind.table (name.map toUpper) = some i ∧
         k.enumKind.isUnsetIdx i = false ∧ r.val = .enum i ∧ AtDelimOrEnd cfg r.s.right) ∨
@@ -336,15 +351,15 @@ theorem never_silent_enum_of_cfg {F} (ops : FloatOps F) (cfg : LexCfg) (hcfg : c
         ((c = 36 ∧ ∃ sp2, t = sp2 ++ r.s.right ∧ Between cfg sp2 ∧ AtDelimOrEnd cfg r.s.right) ∨
          ((c = 44 ∨ c = 41) ∧ r.s.right = c :: t))) ∨
     (nullable = true ∧ input.all isSpace = true ∧ r.val = .unset) := by
-  obtain ⟨sp1, body, h1, h2, h3, h4⟩ := dropSpaces_split [] input
+  obtain ⟨sp1, body, h1, h2, h3, h4⟩ := dropSpaces_split l0 input
   rcases h4 with rfl | ⟨c, t, rfl, hc⟩
   · -- nothing but blanks
     simp at h1; subst h1
     right; right
-    have hws : (IStream.ofBytes input).ws = { left := input.reverse, right := [], eof := true } := by
-      simpa [IStream.ofBytes] using ws_blank [] input true h2
-    have : attrRead ops cfg lookup k nullable (IStream.ofBytes input) =
-        .ok ⟨if nullable then .null else .incomplete, .unset, { left := input.reverse, right := [], eof := true, fail := true }⟩ := by
+    have hws : ({ left := l0, right := input } : IStream).ws = { left := input.reverse ++ l0, right := [], eof := true } := by
+      simpa [IStream.ofBytes] using ws_blank l0 input true h2
+    have : attrRead ops cfg lookup k nullable ({ left := l0, right := input } : IStream) =
+        .ok ⟨if nullable then .null else .incomplete, .unset, { left := input.reverse ++ l0, right := [], eof := true, fail := true }⟩ := by
       rcases hk with rfl | rfl | ⟨items, rfl⟩ <;> simp only [attrRead, hws] <;>
         simp [IStream.peekC, IStream.peek, IStream.sentry, IStream.good, enumRead, readEnum, IStream.ws,
           checkRemainingInput, enumValue, Sev.greater, Sev.toInt] <;> cases nullable <;> rfl
@@ -357,9 +372,9 @@ theorem never_silent_enum_of_cfg {F} (ops : FloatOps F) (cfg : LexCfg) (hcfg : c
   · subst h1
     by_cases h36 : c = 36
     · subst h36
-      rw [attrRead_dollar ops cfg lookup k nullable sp1 t h2] at h
+      rw [attrRead_dollar_at ops cfg lookup k nullable l0 sp1 t h2] at h
       simp only [Outcome.ok.injEq] at h
-      have hch := cri_char cfg { left := 36 :: sp1.reverse, right := t } Sev.null rfl
+      have hch := cri_char cfg { left := 36 :: (sp1.reverse ++ l0), right := t } Sev.null rfl
       subst h
       cases nullable with
       | false => simp [NoErr] at hne
@@ -371,7 +386,7 @@ theorem never_silent_enum_of_cfg {F} (ops : FloatOps F) (cfg : LexCfg) (hcfg : c
         obtain ⟨sp2, hs2, ht, _, hat⟩ := this
         exact ⟨by simp, by simp, sp1, 36, t, rfl, h2, Or.inl ⟨rfl, sp2, ht, hs2, hat⟩⟩
     · by_cases hdl : c = 44 ∨ c = 41
-      · rw [attrRead_missing ops cfg lookup k nullable sp1 t c h2 hdl] at h
+      · rw [attrRead_missing_at ops cfg lookup k nullable l0 sp1 t c h2 hdl] at h
         simp only [Outcome.ok.injEq] at h
         subst h
         cases nullable with
@@ -379,35 +394,35 @@ theorem never_silent_enum_of_cfg {F} (ops : FloatOps F) (cfg : LexCfg) (hcfg : c
         | true => right; left; exact ⟨rfl, rfl, sp1, c, t, rfl, h2, Or.inr ⟨hdl, rfl⟩⟩
       · have hcond : (c == 36 || c == 44 || c == 41) = false := by
           simp at hdl ⊢; exact ⟨⟨h36, hdl.1⟩, hdl.2⟩
-        rw [attrRead_enumlike ops cfg lookup k hk nullable sp1 t c h2 hc hcond] at h
+        rw [attrRead_enumlike_at ops cfg lookup k hk nullable l0 sp1 t c h2 hc hcond] at h
         simp only [Outcome.ok.injEq] at h
         subst h
         simp only at hne ⊢
         have hc44 : c ≠ 44 := fun e => hdl (Or.inl e)
         have hc41 : c ≠ 41 := fun e => hdl (Or.inr e)
-        generalize hq : enumRead cfg k.enumKind nullable { left := sp1.reverse, right := c :: t } Sev.null = q at hne ⊢
+        generalize hq : enumRead cfg k.enumKind nullable { left := (sp1.reverse ++ l0), right := c :: t } Sev.null = q at hne ⊢
         have hqe : NoErr q.2.2 := by
           rcases cri_mono cfg q.2.1 q.2.2 with hm | hm
           · rw [hm] at hne; exact hne
           · exact absurd hne hm
         -- the severity ReadEnum itself reported is null, usermsg or incomplete
-        have hquiet : Quiet (readEnum cfg k.enumKind true { left := sp1.reverse, right := c :: t } Sev.null).2.2 := by
+        have hquiet : Quiet (readEnum cfg k.enumKind true { left := (sp1.reverse ++ l0), right := c :: t } Sev.null).2.2 := by
           rw [← hq] at hqe
           simp only [enumRead] at hqe
-          by_cases hi : ((readEnum cfg k.enumKind true { left := sp1.reverse, right := c :: t } Sev.null).2.2 == Sev.incomplete) = true
+          by_cases hi : ((readEnum cfg k.enumKind true { left := (sp1.reverse ++ l0), right := c :: t } Sev.null).2.2 == Sev.incomplete) = true
           · right; right; simpa using hi
-          · have hi' : ((readEnum cfg k.enumKind true { left := sp1.reverse, right := c :: t } Sev.null).2.2 == Sev.incomplete) = false := by
+          · have hi' : ((readEnum cfg k.enumKind true { left := (sp1.reverse ++ l0), right := c :: t } Sev.null).2.2 == Sev.incomplete) = false := by
               simpa using hi
             simp only [hi', Bool.false_and, Bool.false_eq_true, if_false] at hqe
             exact NoErr.quiet hqe
         obtain ⟨name, rest, i, hct, hn1, hn2, hf, hu, hre⟩ :=
-          readEnum_noerr cfg k.enumKind sp1.reverse c t true hc hc44 hc41 hquiet
-        have hqv : q = (some i, { left := 46 :: (name.reverse ++ 46 :: sp1.reverse), right := rest }, Sev.null) := by
+          readEnum_noerr cfg k.enumKind (sp1.reverse ++ l0) c t true hc hc44 hc41 hquiet
+        have hqv : q = (some i, { left := 46 :: (name.reverse ++ 46 :: (sp1.reverse ++ l0)), right := rest }, Sev.null) := by
           rw [← hq]; simp [enumRead, hre]
         subst hqv
         simp only at hne ⊢
-        have hch := (cri_char cfg { left := 46 :: (name.reverse ++ 46 :: sp1.reverse), right := rest } Sev.null rfl).2 hne
-        generalize checkRemainingInput cfg (some attrDelims) { left := 46 :: (name.reverse ++ 46 :: sp1.reverse), right := rest } Sev.null = X at hne hch ⊢
+        have hch := (cri_char cfg { left := 46 :: (name.reverse ++ 46 :: (sp1.reverse ++ l0)), right := rest } Sev.null rfl).2 hne
+        generalize checkRemainingInput cfg (some attrDelims) { left := 46 :: (name.reverse ++ 46 :: (sp1.reverse ++ l0)), right := rest } Sev.null = X at hne hch ⊢
         left
         have hui := hu hcfg
         simp at hch
@@ -426,7 +441,21 @@ theorem C09_never_silent_enum {F} (ops : FloatOps F) (lookup : Int → RefLookup
         ((c = 36 ∧ ∃ sp2, t = sp2 ++ r.s.right ∧ Between Generated.lexCfg sp2 ∧ AtDelimOrEnd Generated.lexCfg r.s.right) ∨
          ((c = 44 ∨ c = 41) ∧ r.s.right = c :: t))) ∨
     (nullable = true ∧ input.all isSpace = true ∧ r.val = .unset) :=
-  never_silent_enum_of_cfg ops Generated.lexCfg (by decide) (by decide) lookup k hk nullable input r h hne
+  never_silent_enum_of_cfg ops Generated.lexCfg (by decide) (by decide) lookup k hk nullable input [] r h hne
+
+/-- `C09_never_silent_enum` for `STEPattribute::STEPread` called *anywhere in a stream*: the statement does not depend on what was
+    consumed before (`l0`) -/
+theorem C09_never_silent_enum_midstream {F} (ops : FloatOps F) (lookup : Int → RefLookup) (k : Kind) (hk : EnumLike k) (nullable : Bool)
+    (input : List Byte) (l0 : List Byte) (r : ReadResult F)
+    (h : attrRead ops Generated.lexCfg lookup k nullable ({ left := l0, right := input } : IStream) = .ok r) (hne : NoErr r.sev) :
+    (∃ sp1 name sp2 i, input = sp1 ++ 46 :: (name ++ 46 :: (sp2 ++ r.s.right)) ∧ sp1.all isSpace = true ∧ Between Generated.lexCfg sp2 ∧
+        name ≠ [] ∧ name.all pw = true ∧ findName k.enumKind.table (name.map toUpper) = some i ∧
+        k.enumKind.isUnsetIdx i = false ∧ r.val = .enum i ∧ AtDelimOrEnd Generated.lexCfg r.s.right) ∨
+    (nullable = true ∧ r.val = .unset ∧ ∃ sp1 c t, input = sp1 ++ c :: t ∧ sp1.all isSpace = true ∧
+        ((c = 36 ∧ ∃ sp2, t = sp2 ++ r.s.right ∧ Between Generated.lexCfg sp2 ∧ AtDelimOrEnd Generated.lexCfg r.s.right) ∨
+         ((c = 44 ∨ c = 41) ∧ r.s.right = c :: t))) ∨
+    (nullable = true ∧ input.all isSpace = true ∧ r.val = .unset) :=
+  never_silent_enum_of_cfg ops Generated.lexCfg (by decide) (by decide) lookup k hk nullable input l0 r h hne
 
 /-! ## REAL / NUMBER
 
@@ -439,16 +468,16 @@ covered by the correspondence with the exhaustive / random token streams and by 
     bytes, if `STEPattribute::STEPread` flags no error and leaves the attribute unset, then the attribute is OPTIONAL and
     the input is `$`/a missing value, or the input is blank, or the text converts to the in-band null `FLT_MIN`. -/
 theorem never_silently_unset_number_of_cfg {F} (ops : FloatOps F) (cfg : LexCfg) (hcfg : cfg.numberReportsFail = true)
-    (lookup : Int → RefLookup) (nullable : Bool) (input : List Byte) (r : ReadResult F)
-    (h : attrRead ops cfg lookup .number nullable (IStream.ofBytes input) = .ok r) (hne : NoErr r.sev)
+    (lookup : Int → RefLookup) (nullable : Bool) (input : List Byte) (l0 : List Byte) (r : ReadResult F)
+    (h : attrRead ops cfg lookup .number nullable ({ left := l0, right := input } : IStream) = .ok r) (hne : NoErr r.sev)
     (hun : r.val = .unset) : UnsetOrigin ops nullable input := by
-  obtain ⟨sp1, body, h1, h2, h3, h4⟩ := dropSpaces_split [] input
+  obtain ⟨sp1, body, h1, h2, h3, h4⟩ := dropSpaces_split l0 input
   rcases h4 with rfl | ⟨c, t, rfl, hc⟩
   · right; left; simp at h1; subst h1; exact h2
   · subst h1
     by_cases h36 : c = 36
     · subst h36
-      rw [attrRead_dollar ops cfg lookup .number nullable sp1 t h2] at h
+      rw [attrRead_dollar_at ops cfg lookup .number nullable l0 sp1 t h2] at h
       simp only [Outcome.ok.injEq] at h
       subst h
       try replace hne := (noErr_sentinelIf _ _ hne).2
@@ -456,7 +485,7 @@ theorem never_silently_unset_number_of_cfg {F} (ops : FloatOps F) (cfg : LexCfg)
       | false => simp [NoErr] at hne
       | true => left; exact ⟨rfl, sp1, 36, t, rfl, h2, Or.inl rfl⟩
     · by_cases hdl : c = 44 ∨ c = 41
-      · rw [attrRead_missing ops cfg lookup .number nullable sp1 t c h2 hdl] at h
+      · rw [attrRead_missing_at ops cfg lookup .number nullable l0 sp1 t c h2 hdl] at h
         simp only [Outcome.ok.injEq] at h
         subst h
         try replace hne := (noErr_sentinelIf _ _ hne).2
@@ -465,11 +494,11 @@ theorem never_silently_unset_number_of_cfg {F} (ops : FloatOps F) (cfg : LexCfg)
         | true => left; exact ⟨rfl, sp1, c, t, rfl, h2, Or.inr hdl⟩
       · have hcond : (c == 36 || c == 44 || c == 41) = false := by
           simp at hdl ⊢; exact ⟨⟨h36, hdl.1⟩, hdl.2⟩
-        have hpre : (IStream.ofBytes (sp1 ++ c :: t)).ws = { left := sp1.reverse, right := c :: t } := by
-          simpa [IStream.ofBytes] using ws_good [] sp1 c t true h2 hc
+        have hpre : ({ left := l0, right := sp1 ++ c :: t } : IStream).ws = { left := (sp1.reverse ++ l0), right := c :: t } := by
+          simpa [IStream.ofBytes] using ws_good l0 sp1 c t true h2 hc
         simp only [attrRead, hpre, peekC_good, hcond, readNumber, ws_good0 _ _ _ _ hc, extractFloatText_good _ _ _ hc] at h
         simp only [Bool.false_eq_true, if_false, Outcome.ok.injEq] at h
-        cases hconv : ops.conv (scanFloat sp1.reverse (c :: t)).1 with
+        cases hconv : ops.conv (scanFloat (sp1.reverse ++ l0) (c :: t)).1 with
         | ok v =>
           right; right
           simp only [hconv] at h
@@ -501,7 +530,15 @@ theorem C09_never_silent_number_partial {F} (ops : FloatOps F) (lookup : Int →
     (input : List Byte) (r : ReadResult F)
     (h : attrRead ops Generated.lexCfg lookup .number nullable (IStream.ofBytes input) = .ok r) (hne : NoErr r.sev)
     (hun : r.val = .unset) : UnsetOrigin ops nullable input :=
-  never_silently_unset_number_of_cfg ops Generated.lexCfg (by decide) lookup nullable input r h hne hun
+  never_silently_unset_number_of_cfg ops Generated.lexCfg (by decide) lookup nullable input [] r h hne hun
+
+/-- `C09_never_silent_number_partial` for `STEPattribute::STEPread` called *anywhere in a stream*: the statement does not depend on what was
+    consumed before (`l0`) -/
+theorem C09_never_silent_number_partial_midstream {F} (ops : FloatOps F) (lookup : Int → RefLookup) (nullable : Bool)
+    (input : List Byte) (l0 : List Byte) (r : ReadResult F)
+    (h : attrRead ops Generated.lexCfg lookup .number nullable ({ left := l0, right := input } : IStream) = .ok r) (hne : NoErr r.sev)
+    (hun : r.val = .unset) : UnsetOrigin ops nullable input :=
+  never_silently_unset_number_of_cfg ops Generated.lexCfg (by decide) lookup nullable input l0 r h hne hun
 
 /-- REAL, never silently unset (any configuration in which `ReadReal` reports a failed conversion of a non-empty text):
     for any input bytes whose first non-blank byte is not in `quietFirst cfg.realFailUnlessBlank cfg` — empty once `ReadReal`
@@ -511,16 +548,16 @@ theorem C09_never_silent_number_partial {F} (ops : FloatOps F) (lookup : Int →
     `STEPattribute::STEPread` flags no error and leaves the attribute unset, then the attribute is OPTIONAL and the input
     is `$`/a missing value, or the input is blank, or the text converts to the in-band null `FLT_MIN`. -/
 theorem never_silently_unset_real_of_cfg {F} (ops : FloatOps F) (cfg : LexCfg) (hcfg : cfg.realReportsFail = true)
-    (lookup : Int → RefLookup) (nullable : Bool) (input : List Byte) (hfirst : FirstByteNot input (quietFirst cfg.realFailUnlessBlank cfg)) (r : ReadResult F)
-    (h : attrRead ops cfg lookup .real nullable (IStream.ofBytes input) = .ok r) (hne : NoErr r.sev)
+    (lookup : Int → RefLookup) (nullable : Bool) (input : List Byte) (l0 : List Byte) (hfirst : FirstByteNot input (quietFirst cfg.realFailUnlessBlank cfg)) (r : ReadResult F)
+    (h : attrRead ops cfg lookup .real nullable ({ left := l0, right := input } : IStream) = .ok r) (hne : NoErr r.sev)
     (hun : r.val = .unset) : UnsetOrigin ops nullable input := by
-  obtain ⟨sp1, body, h1, h2, h3, h4⟩ := dropSpaces_split [] input
+  obtain ⟨sp1, body, h1, h2, h3, h4⟩ := dropSpaces_split l0 input
   rcases h4 with rfl | ⟨c, t, rfl, hc⟩
   · right; left; simp at h1; subst h1; exact h2
   · subst h1
     by_cases h36 : c = 36
     · subst h36
-      rw [attrRead_dollar ops cfg lookup .real nullable sp1 t h2] at h
+      rw [attrRead_dollar_at ops cfg lookup .real nullable l0 sp1 t h2] at h
       simp only [Outcome.ok.injEq] at h
       subst h
       try replace hne := (noErr_sentinelIf _ _ hne).2
@@ -528,7 +565,7 @@ theorem never_silently_unset_real_of_cfg {F} (ops : FloatOps F) (cfg : LexCfg) (
       | false => simp [NoErr] at hne
       | true => left; exact ⟨rfl, sp1, 36, t, rfl, h2, Or.inl rfl⟩
     · by_cases hdl : c = 44 ∨ c = 41
-      · rw [attrRead_missing ops cfg lookup .real nullable sp1 t c h2 hdl] at h
+      · rw [attrRead_missing_at ops cfg lookup .real nullable l0 sp1 t c h2 hdl] at h
         simp only [Outcome.ok.injEq] at h
         subst h
         try replace hne := (noErr_sentinelIf _ _ hne).2
@@ -540,8 +577,8 @@ theorem never_silently_unset_real_of_cfg {F} (ops : FloatOps F) (cfg : LexCfg) (
         have hcf := hfirst sp1 c t rfl h2 hc
         have hgar : cfg.realFailUnlessBlank = false → delimAt cfg attrDelims c = false ∧ c ≠ 47 := fun hq =>
           quietFirst_spec hq hcf (by simp at hdl; exact hdl.1) (by simp at hdl; exact hdl.2)
-        have hpre : (IStream.ofBytes (sp1 ++ c :: t)).ws = { left := sp1.reverse, right := c :: t } := by
-          simpa [IStream.ofBytes] using ws_good [] sp1 c t true h2 hc
+        have hpre : ({ left := l0, right := sp1 ++ c :: t } : IStream).ws = { left := (sp1.reverse ++ l0), right := c :: t } := by
+          simpa [IStream.ofBytes] using ws_good l0 sp1 c t true h2 hc
         simp only [attrRead, hpre, peekC_good, hcond, readReal, ws_good0 _ _ _ _ hc, IStream.good] at h
         simp only [Bool.false_eq_true, if_false, Bool.not_false, Bool.and_self, Bool.not_true] at h
         have happ := realCollect_append (c :: t)
@@ -602,7 +639,15 @@ theorem C09_never_silent_real_partial {F} (ops : FloatOps F) (lookup : Int → R
     (input : List Byte) (hfirst : FirstByteNot input (quietFirst Generated.lexCfg.realFailUnlessBlank Generated.lexCfg)) (r : ReadResult F)
     (h : attrRead ops Generated.lexCfg lookup .real nullable (IStream.ofBytes input) = .ok r) (hne : NoErr r.sev)
     (hun : r.val = .unset) : UnsetOrigin ops nullable input :=
-  never_silently_unset_real_of_cfg ops Generated.lexCfg (by decide) lookup nullable input hfirst r h hne hun
+  never_silently_unset_real_of_cfg ops Generated.lexCfg (by decide) lookup nullable input [] hfirst r h hne hun
+
+/-- `C09_never_silent_real_partial` for `STEPattribute::STEPread` called *anywhere in a stream*: the statement does not depend on what was
+    consumed before (`l0`) -/
+theorem C09_never_silent_real_partial_midstream {F} (ops : FloatOps F) (lookup : Int → RefLookup) (nullable : Bool)
+    (input : List Byte) (l0 : List Byte) (hfirst : FirstByteNot input (quietFirst Generated.lexCfg.realFailUnlessBlank Generated.lexCfg)) (r : ReadResult F)
+    (h : attrRead ops Generated.lexCfg lookup .real nullable ({ left := l0, right := input } : IStream) = .ok r) (hne : NoErr r.sev)
+    (hun : r.val = .unset) : UnsetOrigin ops nullable input :=
+  never_silently_unset_real_of_cfg ops Generated.lexCfg (by decide) lookup nullable input l0 hfirst r h hne hun
 
 /-- REAL, accept (any configuration): every token of the grammar `real` whose denotation converts (`ofDecimal`: inside the
     double range) to a double other than the in-band null, and that fits `ReadReal`'s buffer, followed by blanks and a
@@ -713,8 +758,8 @@ theorem C09_real_null_reported {F} (ops : FloatOps F) (cfg : LexCfg) (hrep : cfg
     No `FloatLaws` hypothesis is needed: the statement is relative to `ops.ofDecimal` applied to the denotation. -/
 theorem never_silent_real_of_cfg {F} (ops : FloatOps F) (cfg : LexCfg) (hcfg : cfg.realReportsFail = true)
     (hcfg2 : cfg.dollarKeepsError = true)
-    (lookup : Int → RefLookup) (nullable : Bool) (input : List Byte) (hfirst : FirstByteNot input (quietFirst cfg.realFailUnlessBlank cfg)) (r : ReadResult F)
-    (h : attrRead ops cfg lookup .real nullable (IStream.ofBytes input) = .ok r) (hne : NoErr r.sev) :
+    (lookup : Int → RefLookup) (nullable : Bool) (input : List Byte) (l0 : List Byte) (hfirst : FirstByteNot input (quietFirst cfg.realFailUnlessBlank cfg)) (r : ReadResult F)
+    (h : attrRead ops cfg lookup .real nullable ({ left := l0, right := input } : IStream) = .ok r) (hne : NoErr r.sev) :
     (∃ sp1 tok sp2 d v, input = sp1 ++ tok ++ sp2 ++ r.s.right ∧ sp1.all isSpace = true ∧ Between cfg sp2 ∧
         isReal tok = true ∧ denoteReal tok = some d ∧ ops.ofDecimal d = some v ∧
         r.val = realValue ops (some v) ∧ (cfg.realNullReported && ops.isRealNull v) = false ∧
@@ -723,12 +768,12 @@ theorem never_silent_real_of_cfg {F} (ops : FloatOps F) (cfg : LexCfg) (hcfg : c
         ((c = 36 ∧ ∃ sp2, t = sp2 ++ r.s.right ∧ Between cfg sp2 ∧ AtDelimOrEnd cfg r.s.right) ∨
          ((c = 44 ∨ c = 41) ∧ r.s.right = c :: t))) ∨
     (input.all isSpace = true ∧ r.val = .unset) := by
-  obtain ⟨sp1, body, h1, h2, h3, h4⟩ := dropSpaces_split [] input
+  obtain ⟨sp1, body, h1, h2, h3, h4⟩ := dropSpaces_split l0 input
   rcases h4 with rfl | ⟨c, t, rfl, hc⟩
   · right; right
     simp at h1; subst h1
-    have hws : (IStream.ofBytes input).ws = { left := input.reverse, right := [], eof := true } := by
-      simpa [IStream.ofBytes] using ws_blank [] input true h2
+    have hws : ({ left := l0, right := input } : IStream).ws = { left := input.reverse ++ l0, right := [], eof := true } := by
+      simpa [IStream.ofBytes] using ws_blank l0 input true h2
     simp only [attrRead, hws] at h
     simp [IStream.peekC, IStream.peek, IStream.sentry, IStream.good, readReal, IStream.ws, checkRemainingInput, realValue] at h
     subst h
@@ -737,9 +782,9 @@ theorem never_silent_real_of_cfg {F} (ops : FloatOps F) (cfg : LexCfg) (hcfg : c
   · subst h1
     by_cases h36 : c = 36
     · subst h36
-      rw [attrRead_dollar ops cfg lookup .real nullable sp1 t h2] at h
+      rw [attrRead_dollar_at ops cfg lookup .real nullable l0 sp1 t h2] at h
       simp only [Outcome.ok.injEq] at h
-      have hch := cri_char cfg { left := 36 :: sp1.reverse, right := t } Sev.null rfl
+      have hch := cri_char cfg { left := 36 :: (sp1.reverse ++ l0), right := t } Sev.null rfl
       subst h
       try replace hne := (noErr_sentinelIf _ _ hne).2
       cases nullable with
@@ -752,7 +797,7 @@ theorem never_silent_real_of_cfg {F} (ops : FloatOps F) (cfg : LexCfg) (hcfg : c
         obtain ⟨sp2, hs2, ht, _, hat⟩ := this
         exact ⟨by simp, by simp, sp1, 36, t, rfl, h2, Or.inl ⟨rfl, sp2, ht, hs2, hat⟩⟩
     · by_cases hdl : c = 44 ∨ c = 41
-      · rw [attrRead_missing ops cfg lookup .real nullable sp1 t c h2 hdl] at h
+      · rw [attrRead_missing_at ops cfg lookup .real nullable l0 sp1 t c h2 hdl] at h
         simp only [Outcome.ok.injEq] at h
         subst h
         try replace hne := (noErr_sentinelIf _ _ hne).2
@@ -764,8 +809,8 @@ theorem never_silent_real_of_cfg {F} (ops : FloatOps F) (cfg : LexCfg) (hcfg : c
         have hcf := hfirst sp1 c t rfl h2 hc
         have hgar : cfg.realFailUnlessBlank = false → delimAt cfg attrDelims c = false ∧ c ≠ 47 := fun hq =>
           quietFirst_spec hq hcf (by simp at hdl; exact hdl.1) (by simp at hdl; exact hdl.2)
-        have hpre : (IStream.ofBytes (sp1 ++ c :: t)).ws = { left := sp1.reverse, right := c :: t } := by
-          simpa [IStream.ofBytes] using ws_good [] sp1 c t true h2 hc
+        have hpre : ({ left := l0, right := sp1 ++ c :: t } : IStream).ws = { left := (sp1.reverse ++ l0), right := c :: t } := by
+          simpa [IStream.ofBytes] using ws_good l0 sp1 c t true h2 hc
         simp only [attrRead, hpre, peekC_good, hcond, readReal, ws_good0 _ _ _ _ hc, IStream.good] at h
         simp only [Bool.false_eq_true, if_false, Bool.not_false, Bool.and_self, Bool.not_true] at h
         have happ := realCollect_append (c :: t)
@@ -805,10 +850,10 @@ theorem never_silent_real_of_cfg {F} (ops : FloatOps F) (cfg : LexCfg) (hcfg : c
               cases ho : ops.ofDecimal ⟨sg == [45], digitsVal (ip ++ fp) 0, exVal ex - (fp.length : Int)⟩ with
               | none => rw [ho] at hconv; cases hconv
               | some v' => rw [ho] at hconv; simp at hconv; rw [hconv]
-            have hch := (cri_char cfg { left := (realText sg ip fp 69 ex).reverse ++ sp1.reverse, right := rest, eof := rest.isEmpty }
+            have hch := (cri_char cfg { left := (realText sg ip fp 69 ex).reverse ++ (sp1.reverse ++ l0), right := rest, eof := rest.isEmpty }
               (Sev.null.greater Sev.null) rfl).2 hne
             generalize checkRemainingInput cfg (some attrDelims)
-              { left := (realText sg ip fp 69 ex).reverse ++ sp1.reverse, right := rest, eof := rest.isEmpty } (Sev.null.greater Sev.null) = X at hne hch ⊢
+              { left := (realText sg ip fp 69 ex).reverse ++ (sp1.reverse ++ l0), right := rest, eof := rest.isEmpty } (Sev.null.greater Sev.null) = X at hne hch ⊢
             rcases hch with ⟨heof, hsame⟩ | ⟨heof, sp2, hsp2, hrr, _, hat⟩
             · simp only at heof
               have hre : rest = [] := by simpa using heof
@@ -870,7 +915,22 @@ theorem C09_never_silent_real {F} (ops : FloatOps F) (lookup : Int → RefLookup
         ((c = 36 ∧ ∃ sp2, t = sp2 ++ r.s.right ∧ Between Generated.lexCfg sp2 ∧ AtDelimOrEnd Generated.lexCfg r.s.right) ∨
          ((c = 44 ∨ c = 41) ∧ r.s.right = c :: t))) ∨
     (input.all isSpace = true ∧ r.val = .unset) :=
-  never_silent_real_of_cfg ops Generated.lexCfg (by decide) (by decide) lookup nullable input hfirst r h hne
+  never_silent_real_of_cfg ops Generated.lexCfg (by decide) (by decide) lookup nullable input [] hfirst r h hne
+
+/-- `C09_never_silent_real` for `STEPattribute::STEPread` called *anywhere in a stream*: the statement does not depend on what was
+    consumed before (`l0`) -/
+theorem C09_never_silent_real_midstream {F} (ops : FloatOps F) (lookup : Int → RefLookup) (nullable : Bool) (input : List Byte) (l0 : List Byte)
+    (hfirst : FirstByteNot input (quietFirst Generated.lexCfg.realFailUnlessBlank Generated.lexCfg)) (r : ReadResult F)
+    (h : attrRead ops Generated.lexCfg lookup .real nullable ({ left := l0, right := input } : IStream) = .ok r) (hne : NoErr r.sev) :
+    (∃ sp1 tok sp2 d v, input = sp1 ++ tok ++ sp2 ++ r.s.right ∧ sp1.all isSpace = true ∧ Between Generated.lexCfg sp2 ∧
+        isReal tok = true ∧ denoteReal tok = some d ∧ ops.ofDecimal d = some v ∧
+        r.val = realValue ops (some v) ∧ (Generated.lexCfg.realNullReported && ops.isRealNull v) = false ∧
+        AtDelimOrEnd Generated.lexCfg r.s.right) ∨
+    (nullable = true ∧ r.val = .unset ∧ ∃ sp1 c t, input = sp1 ++ c :: t ∧ sp1.all isSpace = true ∧
+        ((c = 36 ∧ ∃ sp2, t = sp2 ++ r.s.right ∧ Between Generated.lexCfg sp2 ∧ AtDelimOrEnd Generated.lexCfg r.s.right) ∨
+         ((c = 44 ∨ c = 41) ∧ r.s.right = c :: t))) ∨
+    (input.all isSpace = true ∧ r.val = .unset) :=
+  never_silent_real_of_cfg ops Generated.lexCfg (by decide) (by decide) lookup nullable input l0 hfirst r h hne
 
 /-! ### REAL writer, under `FloatLaws` (hypotheses) -/
 
@@ -951,8 +1011,8 @@ theorem C09_writer_real_reads_back_model (cfg : LexCfg) (lookup : Int → RefLoo
     form it hands to `strtod`, denote the same decimal. -/
 theorem never_silent_number_of_cfg {F} (ops : FloatOps F) (cfg : LexCfg) (hcfg : cfg.numberReportsFail = true)
     (hcfg2 : cfg.dollarKeepsError = true)
-    (lookup : Int → RefLookup) (nullable : Bool) (input : List Byte) (r : ReadResult F)
-    (h : attrRead ops cfg lookup .number nullable (IStream.ofBytes input) = .ok r) (hne : NoErr r.sev) :
+    (lookup : Int → RefLookup) (nullable : Bool) (input : List Byte) (l0 : List Byte) (r : ReadResult F)
+    (h : attrRead ops cfg lookup .number nullable ({ left := l0, right := input } : IStream) = .ok r) (hne : NoErr r.sev) :
     (∃ sp1 tok sp2 d v, input = sp1 ++ tok ++ sp2 ++ r.s.right ∧ sp1.all isSpace = true ∧ Between cfg sp2 ∧
         denoteReal tok = some d ∧ ops.ofDecimal d = some v ∧
         r.val = realValue ops (some v) ∧ (cfg.numberNullReported && ops.isRealNull v) = false ∧
@@ -961,12 +1021,12 @@ theorem never_silent_number_of_cfg {F} (ops : FloatOps F) (cfg : LexCfg) (hcfg :
         ((c = 36 ∧ ∃ sp2, t = sp2 ++ r.s.right ∧ Between cfg sp2 ∧ AtDelimOrEnd cfg r.s.right) ∨
          ((c = 44 ∨ c = 41) ∧ r.s.right = c :: t))) ∨
     (input.all isSpace = true ∧ r.val = .unset) := by
-  obtain ⟨sp1, body, h1, h2, h3, h4⟩ := dropSpaces_split [] input
+  obtain ⟨sp1, body, h1, h2, h3, h4⟩ := dropSpaces_split l0 input
   rcases h4 with rfl | ⟨c, t, rfl, hc⟩
   · right; right
     simp at h1; subst h1
-    have hws : (IStream.ofBytes input).ws = { left := input.reverse, right := [], eof := true } := by
-      simpa [IStream.ofBytes] using ws_blank [] input true h2
+    have hws : ({ left := l0, right := input } : IStream).ws = { left := input.reverse ++ l0, right := [], eof := true } := by
+      simpa [IStream.ofBytes] using ws_blank l0 input true h2
     simp only [attrRead, hws] at h
     simp [IStream.peekC, IStream.peek, IStream.sentry, IStream.good, readNumber, IStream.ws, IStream.extractFloatText,
       checkRemainingInput, realValue, IStream.failed, Sev.warnIf] at h
@@ -976,9 +1036,9 @@ theorem never_silent_number_of_cfg {F} (ops : FloatOps F) (cfg : LexCfg) (hcfg :
   · subst h1
     by_cases h36 : c = 36
     · subst h36
-      rw [attrRead_dollar ops cfg lookup .number nullable sp1 t h2] at h
+      rw [attrRead_dollar_at ops cfg lookup .number nullable l0 sp1 t h2] at h
       simp only [Outcome.ok.injEq] at h
-      have hch := cri_char cfg { left := 36 :: sp1.reverse, right := t } Sev.null rfl
+      have hch := cri_char cfg { left := 36 :: (sp1.reverse ++ l0), right := t } Sev.null rfl
       subst h
       try replace hne := (noErr_sentinelIf _ _ hne).2
       cases nullable with
@@ -991,7 +1051,7 @@ theorem never_silent_number_of_cfg {F} (ops : FloatOps F) (cfg : LexCfg) (hcfg :
         obtain ⟨sp2, hs2, ht, _, hat⟩ := this
         exact ⟨by simp, by simp, sp1, 36, t, rfl, h2, Or.inl ⟨rfl, sp2, ht, hs2, hat⟩⟩
     · by_cases hdl : c = 44 ∨ c = 41
-      · rw [attrRead_missing ops cfg lookup .number nullable sp1 t c h2 hdl] at h
+      · rw [attrRead_missing_at ops cfg lookup .number nullable l0 sp1 t c h2 hdl] at h
         simp only [Outcome.ok.injEq] at h
         subst h
         try replace hne := (noErr_sentinelIf _ _ hne).2
@@ -1000,11 +1060,11 @@ theorem never_silent_number_of_cfg {F} (ops : FloatOps F) (cfg : LexCfg) (hcfg :
         | true => right; left; exact ⟨rfl, rfl, sp1, c, t, rfl, h2, Or.inr ⟨hdl, rfl⟩⟩
       · have hcond : (c == 36 || c == 44 || c == 41) = false := by
           simp at hdl ⊢; exact ⟨⟨h36, hdl.1⟩, hdl.2⟩
-        have hpre : (IStream.ofBytes (sp1 ++ c :: t)).ws = { left := sp1.reverse, right := c :: t } := by
-          simpa [IStream.ofBytes] using ws_good [] sp1 c t true h2 hc
+        have hpre : ({ left := l0, right := sp1 ++ c :: t } : IStream).ws = { left := (sp1.reverse ++ l0), right := c :: t } := by
+          simpa [IStream.ofBytes] using ws_good l0 sp1 c t true h2 hc
         simp only [attrRead, hpre, peekC_good, hcond, readNumber, ws_good0 _ _ _ _ hc, extractFloatText_good _ _ _ hc] at h
         simp only [Bool.false_eq_true, if_false, Outcome.ok.injEq] at h
-        obtain ⟨hwf, happ, hscan⟩ := numSplit_spec sp1.reverse (c :: t)
+        obtain ⟨hwf, happ, hscan⟩ := numSplit_spec (sp1.reverse ++ l0) (c :: t)
         generalize hns : numSplit (c :: t) = ns at hwf happ hscan
         obtain ⟨f, rest⟩ := ns
         simp only at hwf happ hscan
@@ -1030,9 +1090,9 @@ theorem never_silent_number_of_cfg {F} (ops : FloatOps F) (cfg : LexCfg) (hcfg :
               | none => rw [ho] at hconv; cases hconv
               | some v' => rw [ho] at hconv; simp at hconv; exact ⟨d, rfl, by rw [ho, hconv]⟩
           obtain ⟨d, hd1, hd2⟩ := hof
-          have hch := (cri_char cfg { left := f.text.reverse ++ sp1.reverse, right := rest, eof := rest.isEmpty } Sev.null rfl).2 hne
+          have hch := (cri_char cfg { left := f.text.reverse ++ (sp1.reverse ++ l0), right := rest, eof := rest.isEmpty } Sev.null rfl).2 hne
           generalize checkRemainingInput cfg (some attrDelims)
-            { left := f.text.reverse ++ sp1.reverse, right := rest, eof := rest.isEmpty } Sev.null = X at hne hch ⊢
+            { left := f.text.reverse ++ (sp1.reverse ++ l0), right := rest, eof := rest.isEmpty } Sev.null = X at hne hch ⊢
           rcases hch with ⟨heof, hsame⟩ | ⟨heof, sp2, hsp2, hrr, _, hat⟩
           · simp only at heof
             have hre : rest = [] := by simpa using heof
@@ -1073,7 +1133,22 @@ theorem C09_never_silent_number {F} (ops : FloatOps F) (lookup : Int → RefLook
         ((c = 36 ∧ ∃ sp2, t = sp2 ++ r.s.right ∧ Between Generated.lexCfg sp2 ∧ AtDelimOrEnd Generated.lexCfg r.s.right) ∨
          ((c = 44 ∨ c = 41) ∧ r.s.right = c :: t))) ∨
     (input.all isSpace = true ∧ r.val = .unset) :=
-  never_silent_number_of_cfg ops Generated.lexCfg (by decide) (by decide) lookup nullable input r h hne
+  never_silent_number_of_cfg ops Generated.lexCfg (by decide) (by decide) lookup nullable input [] r h hne
+
+/-- `C09_never_silent_number` for `STEPattribute::STEPread` called *anywhere in a stream*: the statement does not depend on what was
+    consumed before (`l0`) -/
+theorem C09_never_silent_number_midstream {F} (ops : FloatOps F) (lookup : Int → RefLookup) (nullable : Bool) (input : List Byte) (l0 : List Byte)
+    (r : ReadResult F)
+    (h : attrRead ops Generated.lexCfg lookup .number nullable ({ left := l0, right := input } : IStream) = .ok r) (hne : NoErr r.sev) :
+    (∃ sp1 tok sp2 d v, input = sp1 ++ tok ++ sp2 ++ r.s.right ∧ sp1.all isSpace = true ∧ Between Generated.lexCfg sp2 ∧
+        denoteReal tok = some d ∧ ops.ofDecimal d = some v ∧
+        r.val = realValue ops (some v) ∧ (Generated.lexCfg.numberNullReported && ops.isRealNull v) = false ∧
+        AtDelimOrEnd Generated.lexCfg r.s.right) ∨
+    (nullable = true ∧ r.val = .unset ∧ ∃ sp1 c t, input = sp1 ++ c :: t ∧ sp1.all isSpace = true ∧
+        ((c = 36 ∧ ∃ sp2, t = sp2 ++ r.s.right ∧ Between Generated.lexCfg sp2 ∧ AtDelimOrEnd Generated.lexCfg r.s.right) ∨
+         ((c = 44 ∨ c = 41) ∧ r.s.right = c :: t))) ∨
+    (input.all isSpace = true ∧ r.val = .unset) :=
+  never_silent_number_of_cfg ops Generated.lexCfg (by decide) (by decide) lookup nullable input l0 r h hne
 
 /-- NUMBER, accept (any configuration): every token of the `integer` or of the `real` grammar whose denotation converts to a
     double other than the in-band null, followed by blanks and a delimiter, is read to exactly that double with no error,
@@ -1203,8 +1278,8 @@ theorem C09_write_read_number {F} (ops : FloatOps F) (cfg : LexCfg) (lookup : In
     (b) the attribute is OPTIONAL and the input is `$` (followed by blanks only) or a missing value; or
     (c) the input is nothing but blanks. -/
 theorem never_silent_ref_of_cfg {F} (ops : FloatOps F) (cfg : LexCfg) (hcfg2 : cfg.dollarKeepsError = true)
-    (lookup : Int → RefLookup) (nullable : Bool) (input : List Byte) (hfirst : FirstByteNot input (quietFirst cfg.refReportsNonRef cfg)) (r : ReadResult F)
-    (h : attrRead ops cfg lookup .ref nullable (IStream.ofBytes input) = .ok r) (hne : NoErr r.sev) :
+    (lookup : Int → RefLookup) (nullable : Bool) (input : List Byte) (l0 : List Byte) (hfirst : FirstByteNot input (quietFirst cfg.refReportsNonRef cfg)) (r : ReadResult F)
+    (h : attrRead ops cfg lookup .ref nullable ({ left := l0, right := input } : IStream) = .ok r) (hne : NoErr r.sev) :
     (∃ sp1 spx tok sp2, input = sp1 ++ 35 :: (spx ++ tok ++ sp2 ++ r.s.right) ∧ sp1.all isSpace = true ∧ spx.all isSpace = true ∧
         Between cfg sp2 ∧ isInteger tok = true ∧ intMin ≤ denoteInteger tok ∧ denoteInteger tok ≤ intMax ∧
         lookup (denoteInteger tok) = .found ∧ r.val = .ref (denoteInteger tok) ∧ AtDelimOrEnd cfg r.s.right) ∨
@@ -1212,12 +1287,12 @@ theorem never_silent_ref_of_cfg {F} (ops : FloatOps F) (cfg : LexCfg) (hcfg2 : c
         ((c = 36 ∧ ∃ sp2, t = sp2 ++ r.s.right ∧ Between cfg sp2 ∧ AtDelimOrEnd cfg r.s.right) ∨
          ((c = 44 ∨ c = 41) ∧ r.s.right = c :: t))) ∨
     (input.all isSpace = true ∧ r.val = .unset) := by
-  obtain ⟨sp1, body, h1, h2, h3, h4⟩ := dropSpaces_split [] input
+  obtain ⟨sp1, body, h1, h2, h3, h4⟩ := dropSpaces_split l0 input
   rcases h4 with rfl | ⟨c, t, rfl, hc⟩
   · right; right
     simp at h1; subst h1
-    have hws : (IStream.ofBytes input).ws = { left := input.reverse, right := [], eof := true } := by
-      simpa [IStream.ofBytes] using ws_blank [] input true h2
+    have hws : ({ left := l0, right := input } : IStream).ws = { left := input.reverse ++ l0, right := [], eof := true } := by
+      simpa [IStream.ofBytes] using ws_blank l0 input true h2
     simp only [attrRead, hws] at h
     simp [IStream.peekC, IStream.peek, IStream.sentry, IStream.good, readEntityRef, IStream.ws, IStream.getChar,
       IStream.putback, checkRemainingInput, IStream.clear, dropSpaces] at h
@@ -1226,9 +1301,9 @@ theorem never_silent_ref_of_cfg {F} (ops : FloatOps F) (cfg : LexCfg) (hcfg2 : c
   · subst h1
     by_cases h36 : c = 36
     · subst h36
-      rw [attrRead_dollar ops cfg lookup .ref nullable sp1 t h2] at h
+      rw [attrRead_dollar_at ops cfg lookup .ref nullable l0 sp1 t h2] at h
       simp only [Outcome.ok.injEq] at h
-      have hch := cri_char cfg { left := 36 :: sp1.reverse, right := t } Sev.null rfl
+      have hch := cri_char cfg { left := 36 :: (sp1.reverse ++ l0), right := t } Sev.null rfl
       subst h
       cases nullable with
       | false => simp [NoErr] at hne
@@ -1240,7 +1315,7 @@ theorem never_silent_ref_of_cfg {F} (ops : FloatOps F) (cfg : LexCfg) (hcfg2 : c
         obtain ⟨sp2, hs2, ht, _, hat⟩ := this
         exact ⟨by simp, by simp, sp1, 36, t, rfl, h2, Or.inl ⟨rfl, sp2, ht, hs2, hat⟩⟩
     · by_cases hdl : c = 44 ∨ c = 41
-      · rw [attrRead_missing ops cfg lookup .ref nullable sp1 t c h2 hdl] at h
+      · rw [attrRead_missing_at ops cfg lookup .ref nullable l0 sp1 t c h2 hdl] at h
         simp only [Outcome.ok.injEq] at h
         subst h
         cases nullable with
@@ -1251,8 +1326,8 @@ theorem never_silent_ref_of_cfg {F} (ops : FloatOps F) (cfg : LexCfg) (hcfg2 : c
         have hcf := hfirst sp1 c t rfl h2 hc
         have hgar : cfg.refReportsNonRef = false → delimAt cfg attrDelims c = false ∧ c ≠ 47 := fun hq =>
           quietFirst_spec hq hcf (by simp at hdl; exact hdl.1) (by simp at hdl; exact hdl.2)
-        have hpre : (IStream.ofBytes (sp1 ++ c :: t)).ws = { left := sp1.reverse, right := c :: t } := by
-          simpa [IStream.ofBytes] using ws_good [] sp1 c t true h2 hc
+        have hpre : ({ left := l0, right := sp1 ++ c :: t } : IStream).ws = { left := (sp1.reverse ++ l0), right := c :: t } := by
+          simpa [IStream.ofBytes] using ws_good l0 sp1 c t true h2 hc
         simp only [attrRead, hpre, peekC_good, hcond, readEntityRef, ws_good0 _ _ _ _ hc, getChar_good _ _ _ hc] at h
         simp only [Bool.false_eq_true, if_false, Option.getD_some, Option.isSome_some, Bool.and_true, Outcome.ok.injEq] at h
         by_cases h35 : c = 35
@@ -1260,7 +1335,7 @@ theorem never_silent_ref_of_cfg {F} (ops : FloatOps F) (cfg : LexCfg) (hcfg2 : c
           simp only [beq_self_eq_true, Bool.true_or, if_true] at h
           have h64 : ((35 : Byte) == 64) = false := by decide
           simp only [h64, Bool.false_eq_true, if_false] at h
-          obtain ⟨spx, body', hb1, hb2, hb3, hb4⟩ := dropSpaces_split (35 :: sp1.reverse) t
+          obtain ⟨spx, body', hb1, hb2, hb3, hb4⟩ := dropSpaces_split (35 :: (sp1.reverse ++ l0)) t
           rcases hb4 with rfl | ⟨c', t', rfl, hc'⟩
           · -- nothing after `#`
             exfalso
@@ -1274,8 +1349,8 @@ theorem never_silent_ref_of_cfg {F} (ops : FloatOps F) (cfg : LexCfg) (hcfg2 : c
           · subst hb1
             simp only [refTail, extractInt32_skip _ _ _ _ hb2 hc', IStream.failed, Bool.or_false] at h
             obtain ⟨tok, rest, hr, hrest, hs2, hval, _⟩ :=
-              scanInt_split longMin longMax (by decide) (by decide) (spx.reverse ++ 35 :: sp1.reverse) (c' :: t')
-            generalize hsc : scanInt longMin longMax (spx.reverse ++ 35 :: sp1.reverse) (c' :: t') = sc at h hs2 hval
+              scanInt_split longMin longMax (by decide) (by decide) (spx.reverse ++ 35 :: (sp1.reverse ++ l0)) (c' :: t')
+            generalize hsc : scanInt longMin longMax (spx.reverse ++ 35 :: (sp1.reverse ++ l0)) (c' :: t') = sc at h hs2 hval
             obtain ⟨res, l', r'⟩ := sc
             simp only [Prod.mk.injEq] at hs2
             obtain ⟨rfl, rfl⟩ := hs2
@@ -1311,10 +1386,10 @@ theorem never_silent_ref_of_cfg {F} (ops : FloatOps F) (cfg : LexCfg) (hcfg2 : c
                     simp only [hlk] at h
                     subst h
                     simp only at hne ⊢
-                    have hch := (cri_char cfg { left := tok.reverse ++ (spx.reverse ++ 35 :: sp1.reverse), right := r', eof := r'.isEmpty, fail := false }
+                    have hch := (cri_char cfg { left := tok.reverse ++ (spx.reverse ++ 35 :: (sp1.reverse ++ l0)), right := r', eof := r'.isEmpty, fail := false }
                       Sev.null rfl).2 hne
                     generalize checkRemainingInput cfg (some attrDelims)
-                      { left := tok.reverse ++ (spx.reverse ++ 35 :: sp1.reverse), right := r', eof := r'.isEmpty, fail := false } Sev.null = X at hne hch ⊢
+                      { left := tok.reverse ++ (spx.reverse ++ 35 :: (sp1.reverse ++ l0)), right := r', eof := r'.isEmpty, fail := false } Sev.null = X at hne hch ⊢
                     left
                     rw [hv] at hlk hlo hhi
                     rcases hch with ⟨heof, hsame⟩ | ⟨heof, sp2, hsp2, hrr, _, hat⟩
@@ -1369,7 +1444,21 @@ theorem C09_never_silent_ref {F} (ops : FloatOps F) (lookup : Int → RefLookup)
         ((c = 36 ∧ ∃ sp2, t = sp2 ++ r.s.right ∧ Between Generated.lexCfg sp2 ∧ AtDelimOrEnd Generated.lexCfg r.s.right) ∨
          ((c = 44 ∨ c = 41) ∧ r.s.right = c :: t))) ∨
     (input.all isSpace = true ∧ r.val = .unset) :=
-  never_silent_ref_of_cfg ops Generated.lexCfg (by decide) lookup nullable input hfirst r h hne
+  never_silent_ref_of_cfg ops Generated.lexCfg (by decide) lookup nullable input [] hfirst r h hne
+
+/-- `C09_never_silent_ref` for `STEPattribute::STEPread` called *anywhere in a stream*: the statement does not depend on what was
+    consumed before (`l0`) -/
+theorem C09_never_silent_ref_midstream {F} (ops : FloatOps F) (lookup : Int → RefLookup) (nullable : Bool) (input : List Byte) (l0 : List Byte)
+    (hfirst : FirstByteNot input (quietFirst Generated.lexCfg.refReportsNonRef Generated.lexCfg)) (r : ReadResult F)
+    (h : attrRead ops Generated.lexCfg lookup .ref nullable ({ left := l0, right := input } : IStream) = .ok r) (hne : NoErr r.sev) :
+    (∃ sp1 spx tok sp2, input = sp1 ++ 35 :: (spx ++ tok ++ sp2 ++ r.s.right) ∧ sp1.all isSpace = true ∧ spx.all isSpace = true ∧
+        Between Generated.lexCfg sp2 ∧ isInteger tok = true ∧ intMin ≤ denoteInteger tok ∧ denoteInteger tok ≤ intMax ∧
+        lookup (denoteInteger tok) = .found ∧ r.val = .ref (denoteInteger tok) ∧ AtDelimOrEnd Generated.lexCfg r.s.right) ∨
+    (nullable = true ∧ r.val = .unset ∧ ∃ sp1 c t, input = sp1 ++ c :: t ∧ sp1.all isSpace = true ∧
+        ((c = 36 ∧ ∃ sp2, t = sp2 ++ r.s.right ∧ Between Generated.lexCfg sp2 ∧ AtDelimOrEnd Generated.lexCfg r.s.right) ∨
+         ((c = 44 ∨ c = 41) ∧ r.s.right = c :: t))) ∨
+    (input.all isSpace = true ∧ r.val = .unset) :=
+  never_silent_ref_of_cfg ops Generated.lexCfg (by decide) lookup nullable input l0 hfirst r h hne
 
 /-! ## BINARY -/
 
@@ -1381,20 +1470,20 @@ theorem C09_never_silent_ref {F} (ops : FloatOps F) (lookup : Int → RefLookup)
     (A blank input is always reported: INCOMPLETE.) -/
 theorem never_silent_binary_of_cfg {F} (ops : FloatOps F) (cfg : LexCfg) (hcfg : cfg.binaryRejectsEmpty = true)
     (hcfg2 : cfg.dollarKeepsError = true) (lookup : Int → RefLookup) (nullable : Bool)
-    (input : List Byte) (r : ReadResult F)
-    (h : attrRead ops cfg lookup .binary nullable (IStream.ofBytes input) = .ok r) (hne : NoErr r.sev) :
+    (input : List Byte) (l0 : List Byte) (r : ReadResult F)
+    (h : attrRead ops cfg lookup .binary nullable ({ left := l0, right := input } : IStream) = .ok r) (hne : NoErr r.sev) :
     (∃ sp1 hex sp2, input = sp1 ++ 34 :: (hex ++ 34 :: (sp2 ++ r.s.right)) ∧ sp1.all isSpace = true ∧ Between cfg sp2 ∧
         hex ≠ [] ∧ hex.all isXDigit = true ∧ r.val = .bin hex ∧ AtDelimOrEnd cfg r.s.right) ∨
     (nullable = true ∧ r.val = .unset ∧ ∃ sp1 c t, input = sp1 ++ c :: t ∧ sp1.all isSpace = true ∧
         ((c = 36 ∧ ∃ sp2, t = sp2 ++ r.s.right ∧ Between cfg sp2 ∧ AtDelimOrEnd cfg r.s.right) ∨
          ((c = 44 ∨ c = 41) ∧ r.s.right = c :: t))) := by
-  obtain ⟨sp1, body, h1, h2, h3, h4⟩ := dropSpaces_split [] input
+  obtain ⟨sp1, body, h1, h2, h3, h4⟩ := dropSpaces_split l0 input
   rcases h4 with rfl | ⟨c, t, rfl, hc⟩
   · -- nothing but blanks: ReadBinary reports INCOMPLETE
     exfalso
     simp at h1; subst h1
-    have hws : (IStream.ofBytes input).ws = { left := input.reverse, right := [], eof := true } := by
-      simpa [IStream.ofBytes] using ws_blank [] input true h2
+    have hws : ({ left := l0, right := input } : IStream).ws = { left := input.reverse ++ l0, right := [], eof := true } := by
+      simpa [IStream.ofBytes] using ws_blank l0 input true h2
     simp only [attrRead, hws] at h
     simp [IStream.peekC, IStream.peek, IStream.sentry, IStream.good, readBinary, IStream.ws, checkRemainingInput] at h
     subst h
@@ -1402,9 +1491,9 @@ theorem never_silent_binary_of_cfg {F} (ops : FloatOps F) (cfg : LexCfg) (hcfg :
   · subst h1
     by_cases h36 : c = 36
     · subst h36
-      rw [attrRead_dollar ops cfg lookup .binary nullable sp1 t h2] at h
+      rw [attrRead_dollar_at ops cfg lookup .binary nullable l0 sp1 t h2] at h
       simp only [Outcome.ok.injEq] at h
-      have hch := cri_char cfg { left := 36 :: sp1.reverse, right := t } Sev.null rfl
+      have hch := cri_char cfg { left := 36 :: (sp1.reverse ++ l0), right := t } Sev.null rfl
       subst h
       cases nullable with
       | false => simp [NoErr] at hne
@@ -1416,7 +1505,7 @@ theorem never_silent_binary_of_cfg {F} (ops : FloatOps F) (cfg : LexCfg) (hcfg :
         obtain ⟨sp2, hs2, ht, _, hat⟩ := this
         exact ⟨by simp, by simp, sp1, 36, t, rfl, h2, Or.inl ⟨rfl, sp2, ht, hs2, hat⟩⟩
     · by_cases hdl : c = 44 ∨ c = 41
-      · rw [attrRead_missing ops cfg lookup .binary nullable sp1 t c h2 hdl] at h
+      · rw [attrRead_missing_at ops cfg lookup .binary nullable l0 sp1 t c h2 hdl] at h
         simp only [Outcome.ok.injEq] at h
         subst h
         cases nullable with
@@ -1424,23 +1513,23 @@ theorem never_silent_binary_of_cfg {F} (ops : FloatOps F) (cfg : LexCfg) (hcfg :
         | true => right; exact ⟨rfl, rfl, sp1, c, t, rfl, h2, Or.inr ⟨hdl, rfl⟩⟩
       · have hcond : (c == 36 || c == 44 || c == 41) = false := by
           simp at hdl ⊢; exact ⟨⟨h36, hdl.1⟩, hdl.2⟩
-        have hpre : (IStream.ofBytes (sp1 ++ c :: t)).ws = { left := sp1.reverse, right := c :: t } := by
-          simpa [IStream.ofBytes] using ws_good [] sp1 c t true h2 hc
+        have hpre : ({ left := l0, right := sp1 ++ c :: t } : IStream).ws = { left := (sp1.reverse ++ l0), right := c :: t } := by
+          simpa [IStream.ofBytes] using ws_good l0 sp1 c t true h2 hc
         simp only [attrRead, hpre, peekC_good, hcond, Bool.false_eq_true, if_false, Outcome.ok.injEq] at h
         subst h
         simp only at hne ⊢
-        generalize hq : readBinary cfg true { left := sp1.reverse, right := c :: t } Sev.null = q at hne ⊢
+        generalize hq : readBinary cfg true { left := (sp1.reverse ++ l0), right := c :: t } Sev.null = q at hne ⊢
         have hqe : NoErr q.2.2 := by
           rcases cri_mono cfg q.2.1 q.2.2 with hm | hm
           · rw [hm] at hne; exact hne
           · exact absurd hne hm
         rw [← hq] at hqe
-        obtain ⟨hex, rest, hct, hx1, hx2, hre⟩ := readBinary_noerr cfg hcfg sp1.reverse c t true hc hqe
+        obtain ⟨hex, rest, hct, hx1, hx2, hre⟩ := readBinary_noerr cfg hcfg (sp1.reverse ++ l0) c t true hc hqe
         rw [hre] at hq
         subst hq
         simp only at hne ⊢
-        have hch := (cri_char cfg { left := 34 :: (hex.reverse ++ 34 :: sp1.reverse), right := rest } Sev.null rfl).2 hne
-        generalize checkRemainingInput cfg (some attrDelims) { left := 34 :: (hex.reverse ++ 34 :: sp1.reverse), right := rest } Sev.null = X at hne hch ⊢
+        have hch := (cri_char cfg { left := 34 :: (hex.reverse ++ 34 :: (sp1.reverse ++ l0)), right := rest } Sev.null rfl).2 hne
+        generalize checkRemainingInput cfg (some attrDelims) { left := 34 :: (hex.reverse ++ 34 :: (sp1.reverse ++ l0)), right := rest } Sev.null = X at hne hch ⊢
         left
         simp at hch
         obtain ⟨sp2, hs2, hrr, _, hat⟩ := hch
@@ -1457,7 +1546,19 @@ theorem C09_never_silent_binary {F} (ops : FloatOps F) (lookup : Int → RefLook
     (nullable = true ∧ r.val = .unset ∧ ∃ sp1 c t, input = sp1 ++ c :: t ∧ sp1.all isSpace = true ∧
         ((c = 36 ∧ ∃ sp2, t = sp2 ++ r.s.right ∧ Between Generated.lexCfg sp2 ∧ AtDelimOrEnd Generated.lexCfg r.s.right) ∨
          ((c = 44 ∨ c = 41) ∧ r.s.right = c :: t))) :=
-  never_silent_binary_of_cfg ops Generated.lexCfg (by decide) (by decide) lookup nullable input r h hne
+  never_silent_binary_of_cfg ops Generated.lexCfg (by decide) (by decide) lookup nullable input [] r h hne
+
+/-- `C09_never_silent_binary` for `STEPattribute::STEPread` called *anywhere in a stream*: the statement does not depend on what was
+    consumed before (`l0`) -/
+theorem C09_never_silent_binary_midstream {F} (ops : FloatOps F) (lookup : Int → RefLookup) (nullable : Bool)
+    (input : List Byte) (l0 : List Byte) (r : ReadResult F)
+    (h : attrRead ops Generated.lexCfg lookup .binary nullable ({ left := l0, right := input } : IStream) = .ok r) (hne : NoErr r.sev) :
+    (∃ sp1 hex sp2, input = sp1 ++ 34 :: (hex ++ 34 :: (sp2 ++ r.s.right)) ∧ sp1.all isSpace = true ∧ Between Generated.lexCfg sp2 ∧
+        hex ≠ [] ∧ hex.all isXDigit = true ∧ r.val = .bin hex ∧ AtDelimOrEnd Generated.lexCfg r.s.right) ∨
+    (nullable = true ∧ r.val = .unset ∧ ∃ sp1 c t, input = sp1 ++ c :: t ∧ sp1.all isSpace = true ∧
+        ((c = 36 ∧ ∃ sp2, t = sp2 ++ r.s.right ∧ Between Generated.lexCfg sp2 ∧ AtDelimOrEnd Generated.lexCfg r.s.right) ∨
+         ((c = 44 ∨ c = 41) ∧ r.s.right = c :: t))) :=
+  never_silent_binary_of_cfg ops Generated.lexCfg (by decide) (by decide) lookup nullable input l0 r h hne
 
 /-! ## STRING -/
 
@@ -1514,19 +1615,19 @@ theorem C09_accept_string {F} (ops : FloatOps F) (cfg : LexCfg) (lookup : Int 
     (b) the attribute is OPTIONAL and the input is `$` (followed by blanks only) or a missing value.
     (A blank input, or one that does not start with an apostrophe, is always reported.) -/
 theorem never_silent_string_of_cfg {F} (ops : FloatOps F) (cfg : LexCfg) (hcfg2 : cfg.dollarKeepsError = true)
-    (lookup : Int → RefLookup) (nullable : Bool) (input : List Byte) (r : ReadResult F)
-    (h : attrRead ops cfg lookup .string nullable (IStream.ofBytes input) = .ok r) (hne : NoErr r.sev) :
+    (lookup : Int → RefLookup) (nullable : Bool) (input : List Byte) (l0 : List Byte) (r : ReadResult F)
+    (h : attrRead ops cfg lookup .string nullable ({ left := l0, right := input } : IStream) = .ok r) (hne : NoErr r.sev) :
     (∃ sp1 tok sp2, input = sp1 ++ tok ++ sp2 ++ r.s.right ∧ sp1.all isSpace = true ∧ Between cfg sp2 ∧
         isStringLenient tok = true ∧ r.val = .str tok ∧ AtDelimOrEnd cfg r.s.right) ∨
     (nullable = true ∧ r.val = .unset ∧ ∃ sp1 c t, input = sp1 ++ c :: t ∧ sp1.all isSpace = true ∧
         ((c = 36 ∧ ∃ sp2, t = sp2 ++ r.s.right ∧ Between cfg sp2 ∧ AtDelimOrEnd cfg r.s.right) ∨
          ((c = 44 ∨ c = 41) ∧ r.s.right = c :: t))) := by
-  obtain ⟨sp1, body, h1, h2, h3, h4⟩ := dropSpaces_split [] input
+  obtain ⟨sp1, body, h1, h2, h3, h4⟩ := dropSpaces_split l0 input
   rcases h4 with rfl | ⟨c, t, rfl, hc⟩
   · exfalso
     simp at h1; subst h1
-    have hws : (IStream.ofBytes input).ws = { left := input.reverse, right := [], eof := true } := by
-      simpa [IStream.ofBytes] using ws_blank [] input true h2
+    have hws : ({ left := l0, right := input } : IStream).ws = { left := input.reverse ++ l0, right := [], eof := true } := by
+      simpa [IStream.ofBytes] using ws_blank l0 input true h2
     simp only [attrRead, hws] at h
     simp [IStream.peekC, IStream.peek, IStream.sentry, IStream.good, stringRead, getLiteralStr, IStream.setSkipws, IStream.ws,
       checkRemainingInput] at h
@@ -1535,9 +1636,9 @@ theorem never_silent_string_of_cfg {F} (ops : FloatOps F) (cfg : LexCfg) (hcfg2 
   · subst h1
     by_cases h36 : c = 36
     · subst h36
-      rw [attrRead_dollar ops cfg lookup .string nullable sp1 t h2] at h
+      rw [attrRead_dollar_at ops cfg lookup .string nullable l0 sp1 t h2] at h
       simp only [Outcome.ok.injEq] at h
-      have hch := cri_char cfg { left := 36 :: sp1.reverse, right := t } Sev.null rfl
+      have hch := cri_char cfg { left := 36 :: (sp1.reverse ++ l0), right := t } Sev.null rfl
       subst h
       cases nullable with
       | false => simp [NoErr] at hne
@@ -1549,7 +1650,7 @@ theorem never_silent_string_of_cfg {F} (ops : FloatOps F) (cfg : LexCfg) (hcfg2 
         obtain ⟨sp2, hs2, ht, _, hat⟩ := this
         exact ⟨by simp, by simp, sp1, 36, t, rfl, h2, Or.inl ⟨rfl, sp2, ht, hs2, hat⟩⟩
     · by_cases hdl : c = 44 ∨ c = 41
-      · rw [attrRead_missing ops cfg lookup .string nullable sp1 t c h2 hdl] at h
+      · rw [attrRead_missing_at ops cfg lookup .string nullable l0 sp1 t c h2 hdl] at h
         simp only [Outcome.ok.injEq] at h
         subst h
         cases nullable with
@@ -1557,8 +1658,8 @@ theorem never_silent_string_of_cfg {F} (ops : FloatOps F) (cfg : LexCfg) (hcfg2 
         | true => right; exact ⟨rfl, rfl, sp1, c, t, rfl, h2, Or.inr ⟨hdl, rfl⟩⟩
       · have hcond : (c == 36 || c == 44 || c == 41) = false := by
           simp at hdl ⊢; exact ⟨⟨h36, hdl.1⟩, hdl.2⟩
-        have hpre : (IStream.ofBytes (sp1 ++ c :: t)).ws = { left := sp1.reverse, right := c :: t } := by
-          simpa [IStream.ofBytes] using ws_good [] sp1 c t true h2 hc
+        have hpre : ({ left := l0, right := sp1 ++ c :: t } : IStream).ws = { left := (sp1.reverse ++ l0), right := c :: t } := by
+          simpa [IStream.ofBytes] using ws_good l0 sp1 c t true h2 hc
         simp only [attrRead, hpre, peekC_good, hcond, Bool.false_eq_true, if_false, Outcome.ok.injEq, stringRead,
           IStream.setSkipws, getLiteralStr, ws_good0 _ _ _ _ hc, IStream.good, Bool.not_false, Bool.and_self, Bool.not_true] at h
         by_cases hq : c = 39
@@ -1584,9 +1685,9 @@ theorem never_silent_string_of_cfg {F} (ops : FloatOps F) (cfg : LexCfg) (hcfg2 
             simp only [Bool.false_eq_true, if_false] at hne ⊢
             have hmne : m ≠ [] := by
               intro hm; have := hm6 hm; cases this
-            have hch := (cri_char cfg { left := m.reverse ++ [39] ++ sp1.reverse, right := rest, eof := hitEnd, skipws := false } Sev.null rfl).2 hne
+            have hch := (cri_char cfg { left := m.reverse ++ [39] ++ (sp1.reverse ++ l0), right := rest, eof := hitEnd, skipws := false } Sev.null rfl).2 hne
             generalize checkRemainingInput cfg (some attrDelims)
-              { left := m.reverse ++ [39] ++ sp1.reverse, right := rest, eof := hitEnd, skipws := false } Sev.null = X at hne hch ⊢
+              { left := m.reverse ++ [39] ++ (sp1.reverse ++ l0), right := rest, eof := hitEnd, skipws := false } Sev.null = X at hne hch ⊢
             left
             have hlast : m.getLast? = some 39 := by
               have := hm3 rfl
@@ -1628,7 +1729,19 @@ theorem C09_never_silent_string {F} (ops : FloatOps F) (lookup : Int → RefLook
     (nullable = true ∧ r.val = .unset ∧ ∃ sp1 c t, input = sp1 ++ c :: t ∧ sp1.all isSpace = true ∧
         ((c = 36 ∧ ∃ sp2, t = sp2 ++ r.s.right ∧ Between Generated.lexCfg sp2 ∧ AtDelimOrEnd Generated.lexCfg r.s.right) ∨
          ((c = 44 ∨ c = 41) ∧ r.s.right = c :: t))) :=
-  never_silent_string_of_cfg ops Generated.lexCfg (by decide) lookup nullable input r h hne
+  never_silent_string_of_cfg ops Generated.lexCfg (by decide) lookup nullable input [] r h hne
+
+/-- `C09_never_silent_string` for `STEPattribute::STEPread` called *anywhere in a stream*: the statement does not depend on what was
+    consumed before (`l0`) -/
+theorem C09_never_silent_string_midstream {F} (ops : FloatOps F) (lookup : Int → RefLookup) (nullable : Bool)
+    (input : List Byte) (l0 : List Byte) (r : ReadResult F)
+    (h : attrRead ops Generated.lexCfg lookup .string nullable ({ left := l0, right := input } : IStream) = .ok r) (hne : NoErr r.sev) :
+    (∃ sp1 tok sp2, input = sp1 ++ tok ++ sp2 ++ r.s.right ∧ sp1.all isSpace = true ∧ Between Generated.lexCfg sp2 ∧
+        isStringLenient tok = true ∧ r.val = .str tok ∧ AtDelimOrEnd Generated.lexCfg r.s.right) ∨
+    (nullable = true ∧ r.val = .unset ∧ ∃ sp1 c t, input = sp1 ++ c :: t ∧ sp1.all isSpace = true ∧
+        ((c = 36 ∧ ∃ sp2, t = sp2 ++ r.s.right ∧ Between Generated.lexCfg sp2 ∧ AtDelimOrEnd Generated.lexCfg r.s.right) ∨
+         ((c = 44 ∨ c = 41) ∧ r.s.right = c :: t))) :=
+  never_silent_string_of_cfg ops Generated.lexCfg (by decide) lookup nullable input l0 r h hne
 
 /-! ## accept and writer theorems for BINARY, entity references, enumerations, STRING -/
 
@@ -2431,7 +2544,7 @@ theorem C09_never_silent_real_full {F} (ops : FloatOps F) (cfg : LexCfg) (hcfg :
         ((c = 36 ∧ ∃ sp2, t = sp2 ++ r.s.right ∧ Between cfg sp2 ∧ AtDelimOrEnd cfg r.s.right) ∨
          ((c = 44 ∨ c = 41) ∧ r.s.right = c :: t))) ∨
     (input.all isSpace = true ∧ r.val = .unset) :=
-  never_silent_real_of_cfg ops cfg hcfg hcfg2 lookup nullable input (by rw [hq]; exact firstByteNot_nil input) r h hne
+  never_silent_real_of_cfg ops cfg hcfg hcfg2 lookup nullable input [] (by rw [hq]; exact firstByteNot_nil input) r h hne
 
 /-- entity reference, never silent at full strength: in every configuration whose `ReadEntityRef` reports a character that
     is neither `#`/`@` nor a delimiter where the reference should be (fixes/C09-8), no input is excluded -/
@@ -2445,7 +2558,7 @@ theorem C09_never_silent_ref_full {F} (ops : FloatOps F) (cfg : LexCfg) (hcfg2 :
         ((c = 36 ∧ ∃ sp2, t = sp2 ++ r.s.right ∧ Between cfg sp2 ∧ AtDelimOrEnd cfg r.s.right) ∨
          ((c = 44 ∨ c = 41) ∧ r.s.right = c :: t))) ∨
     (input.all isSpace = true ∧ r.val = .unset) :=
-  never_silent_ref_of_cfg ops cfg hcfg2 lookup nullable input (by rw [hq]; exact firstByteNot_nil input) r h hne
+  never_silent_ref_of_cfg ops cfg hcfg2 lookup nullable input [] (by rw [hq]; exact firstByteNot_nil input) r h hne
 
 /-! ## BOOLEAN / LOGICAL writer: all values (finite), by evaluation of the model -/
 
